@@ -160,6 +160,24 @@ func ZZC07Par(n int) {
 			func() { zzServeQuiet(b, "GET", "/k/5"); zzServeQuiet(b, "OPTIONS", "*"); zzServeQuiet(b, "PUT", "/k/5") },
 		)
 		zzv.Cover("par-build-and-serve")
+	case 3: // two routers built from the same Option values: one is being built while the other serves
+		cors := WithCORS([]string{"o1"}, []string{"X-A"}, []string{"E1"}, 60, true)
+		dom := WithURLDomain("http://d/")
+		a := zzNewRouter("a", cors, dom)
+		a.Handle("/x", &hnd{id: 1}, nil, "GET")
+		zzv.Par(
+			func() { zzNewRouter("b", cors, dom).Handle("/y", &hnd{id: 2}, nil, "GET") },
+			func() {
+				req := zzReq("GET", "/x")
+				req.Header.Set("Origin", "o1")
+				w := newW()
+				w.obs = &zzObs{}
+				a.ServeHTTP(w, req)
+				zzv.Assert(w.h.Get("Access-Control-Allow-Origin") == "o1", "par:cors-grant-lost")
+				a.URL(false, "/x", nil)
+			},
+		)
+		zzv.Cover("par-shared-options")
 	default: // concurrent requests on one quiescent router, with (12,13) and without (10,11) WithLock
 		var r *Router[*hnd]
 		if n >= 12 {
